@@ -1,4 +1,6 @@
 import DiscretModel.Lemmas.SyncTombs
+import DiscretModel.Lemmas.SyncTombsFixedRoom
+import DiscretModel.Lemmas.SyncRefineRoom
 import DiscretModel.Lemmas.SyncConverge
 /-
 C11 — a deleted row stays deleted.
@@ -7,6 +9,16 @@ C11 — a deleted row stays deleted.
 deletion record removing every version of its row (`syncDeletionRoomScoped := false`) — both off in
 `Defects.none` — no replica ever stores a row that carries a deletion record, whatever the schedule of local
 writes, writer batches, recomputations and pulls between any number of peers.
+
+`Lemmas/SyncTombsScoped.lean`, `Lemmas/SyncTombsFixedRoom.lean`: the same for EVERY model that consults the deletion log
+(#18 repaired) with every other switch as in the code — deletion records are per room there (a synchronised deletion
+deletes `WHERE room_id = ? AND id = ?`, the log is consulted `WHERE room_id = ? AND id IN (..)`):
+* whatever a peer pulls from whatever source, a row is never stored (again) in a room in which the peer holds a
+  deletion record of it, and no record is forgotten (`C11_pull_keeps_deleted`, `C11_invariant_repaired`,
+  `C11_deleted_stays_deleted_repaired`);
+* in histories where rows keep the room they were created in — the histories of the property — this is the statement
+  at the level of row ids: no version of a deleted row is ever stored again (`C11_invariant_rooms`,
+  `C11_deleted_stays_deleted_rooms`).
 -/
 namespace Discret.Sync
 open Discret.DailyLog
@@ -61,6 +73,209 @@ theorem C11_deleted_stays_deleted (rights : Rights) (ops1 ops2 : List Op) (p i :
   rw [e] at hz
   exact hz hdead
 
+/-! ### the code with #18 repaired: any model `d` that consults the deletion log, every other switch free -/
+
+/-- the model of the code with the repair of #18 (`findings/C11-ingest-consults-deletion-log.patch`) -/
+def Defects.repaired18 : Defects := { Defects.asImplemented with ingestIgnoresTombstones := false }
+
+/-- **C11 (one pull, whatever the source holds).** For every model that consults the deletion log — the code with
+    #18 repaired, room-scoped deletions and every other deviation included — and ANY source replica (a peer that has
+    not seen the deletion, that holds older or newer versions, anything): after the pull the puller stores no row in a
+    room in which it holds a deletion record of that row, and it still holds every deletion record it held. -/
+theorem C11_pull_keeps_deleted (d : Defects) (hI : d.ingestIgnoresTombstones = false) (rights : Rights)
+    (dst src : Replica) (room : Nat) (h : NoZombieR dst) :
+    NoZombieR (pull d rights dst src room).dst ∧
+      ∀ x ∈ dst.deadPairs, x ∈ (pull d rights dst src room).dst.deadPairs :=
+  pull_noZombieR hI rights src h room
+
+/-- **C11 (invariant over any schedule, #18 repaired).** Any number of peers, any op sequence in which no LOCAL write
+    itself puts a row into a room where the writer holds its deletion record (`runSafe`: fresh ids for creations, no
+    room move into such a room — for every other write outside an open batch this is automatic,
+    `C11_safe_is_automatic`): in the state reached no replica — and no committed state hidden behind an open writer
+    batch — stores a row in a room in which it holds a deletion record of that row. -/
+theorem C11_invariant_repaired (d : Defects) (hI : d.ingestIgnoresTombstones = false) (rights : Rights)
+    (ops : List Op) (hs : runSafe d (World.initDated rights) ops) :
+    let w := World.run d (World.initDated rights) ops
+    (∀ r ∈ w.peers, NoZombieR r) ∧ (∀ r ∈ w.visible, NoZombieR r) := by
+  have s := run_stepR hI ops (World.initDated rights) (init_WZR rights) hs
+  refine ⟨s.1.1, ?_⟩
+  intro r hr
+  unfold World.visible at hr
+  split at hr
+  · rename_i b hb
+    rcases List.mem_or_eq_of_mem_set hr with e | e
+    · exact s.1.1 r e
+    · rw [e]; exact s.1.2 b hb
+  · exact s.1.1 r hr
+
+/-- the guard of `C11_invariant_repaired` is automatic for updates without room move, reference changes and
+    deletions made outside an open batch, in every state that satisfies the invariant -/
+theorem C11_safe_is_automatic (w : World) (hw : WZR w) (hb : w.batch = none) (p : Nat) :
+    (∀ row val sig, Op.safe w (.write p (.upd row val sig none))) ∧
+    (∀ row to sig, Op.safe w (.write p (.ref row to sig))) ∧
+    (∀ row to sig dsig, Op.safe w (.write p (.unref row to sig dsig))) ∧
+    (∀ row dsig, Op.safe w (.write p (.del row dsig))) := by
+  have h := WOp.safe_of_noZombieR (hw.peer p)
+  simp only [Op.safe, World.snapOf, hb]
+  exact h
+
+/-- **C11 (a deleted row stays deleted, #18 repaired).** Once peer `p` stores a deletion record of row `i` in room
+    `room` (after `ops1`), then after ANY continuation `ops2` — pulls from peers that never saw the deletion
+    included — peer `p` still stores a deletion record of `i` in that room and stores no version of `i` in that room. -/
+theorem C11_deleted_stays_deleted_repaired (d : Defects) (hI : d.ingestIgnoresTombstones = false) (rights : Rights)
+    (ops1 ops2 : List Op) (p i room : Nat)
+    (hs : runSafe d (World.initDated rights) (ops1 ++ ops2))
+    (hd : (i, room) ∈ ((World.run d (World.initDated rights) ops1).peer p).deadPairs) :
+    let w := World.run d (World.initDated rights) (ops1 ++ ops2)
+    (i, room) ∈ (w.peer p).deadPairs ∧ ∀ n ∈ (w.peer p).nodes, n.id = i → n.room ≠ room := by
+  have hsplit : World.run d (World.initDated rights) (ops1 ++ ops2) =
+      World.run d (World.run d (World.initDated rights) ops1) ops2 := by
+    simp [World.run, List.foldl_append]
+  obtain ⟨hs1, hs2⟩ := runSafe_append d ops1 ops2 _ hs
+  have s1 := run_stepR hI ops1 (World.initDated rights) (init_WZR rights) hs1
+  have s2 := run_stepR hI ops2 _ s1.1 hs2
+  simp only
+  rw [hsplit]
+  have hdead := s2.2 p (i, room) hd
+  refine ⟨hdead, ?_⟩
+  intro n hn e1 e2
+  have hz := (noZombieR_iff _).mp (s2.1.peer p) n hn
+  rw [e1, e2] at hz
+  exact hz hdead
+
+/-- **C11 (invariant at the level of row ids, #18 repaired, rows keep their room).** Any number of peers, any op
+    sequence whose creations use fresh ids and in which a row is created in, and only ever explicitly moved to, the
+    room `f` names for it (no row changes room — the histories of the property): no replica, and no committed state
+    behind an open batch, stores ANY version of a row whose id carries a deletion record on that replica. -/
+theorem C11_invariant_rooms (d : Defects) (hI : d.ingestIgnoresTombstones = false) (rights : Rights) (f : Nat → Nat)
+    (ops : List Op) (hf : runFresh d (World.initDated rights) ops) (hk : ∀ op ∈ ops, op.keepsRoom f) :
+    let w := World.run d (World.initDated rights) ops
+    (∀ r ∈ w.peers, NoZombie r) ∧ (∀ r ∈ w.visible, NoZombie r) := by
+  have s := run_stepF hI ops (World.initDated rights) (init_WZ rights) (init_WRooms f rights) hf hk
+  refine ⟨s.1.1.1, ?_⟩
+  intro r hr
+  unfold World.visible at hr
+  split at hr
+  · rename_i b hb
+    rcases List.mem_or_eq_of_mem_set hr with e | e
+    · exact s.1.1.1 r e
+    · rw [e]; exact s.1.1.2 b hb
+  · exact s.1.1.1 r hr
+
+/-- **C11 (a deleted row stays deleted, row ids, #18 repaired, rows keep their room).** Once peer `p` stores a
+    deletion record of row `i`, then after any continuation — pulls from peers that never saw the deletion, that hold
+    the deleted, an older or a newer version — peer `p` still stores a record of `i` and no version of `i` at all. -/
+theorem C11_deleted_stays_deleted_rooms (d : Defects) (hI : d.ingestIgnoresTombstones = false) (rights : Rights)
+    (f : Nat → Nat) (ops1 ops2 : List Op) (p i : Nat)
+    (hf : runFresh d (World.initDated rights) (ops1 ++ ops2)) (hk : ∀ op ∈ ops1 ++ ops2, op.keepsRoom f)
+    (hd : i ∈ ((World.run d (World.initDated rights) ops1).peer p).deadIds) :
+    let w := World.run d (World.initDated rights) (ops1 ++ ops2)
+    i ∈ (w.peer p).deadIds ∧ ∀ n ∈ (w.peer p).nodes, n.id ≠ i := by
+  have hsplit : World.run d (World.initDated rights) (ops1 ++ ops2) =
+      World.run d (World.run d (World.initDated rights) ops1) ops2 := by
+    simp [World.run, List.foldl_append]
+  obtain ⟨hf1, hf2⟩ := runFresh_append d ops1 ops2 _ hf
+  have s1 := run_stepF hI ops1 (World.initDated rights) (init_WZ rights) (init_WRooms f rights) hf1
+    (fun o ho => hk o (List.mem_append_left _ ho))
+  have s2 := run_stepF hI ops2 _ s1.1.1 s1.2 hf2 (fun o ho => hk o (List.mem_append_right _ ho))
+  simp only
+  rw [hsplit]
+  have hdead := s2.1.2 p i hd
+  refine ⟨hdead, ?_⟩
+  intro n hn e
+  have hz := (noZombie_iff _).mp (s2.1.1.peer p) n hn
+  rw [e] at hz
+  exact hz hdead
+
+open Discret.SyncOrder in
+/-- **C11 (once a pull has nothing left to bring: record present, row absent).** For every model that consults the
+    deletion log (#18 repaired) and compares the whole history (`summaryFirstEntityOnly` off), members holding every
+    right, rows that keep their room (or unscoped deletions), no two records of one row on one day in the source (or
+    batches not keyed by row id), both logs being the logs of the stored content (C09): when a pull `dst ← src` of a
+    room leaves the rows and deletion records of `dst` as they were — the pair is quiescent — `dst` holds every
+    deletion record that `src` holds for that room and stores no version of the rows they name.
+    Each hypothesis stands for one open known finding: `room-summary-compares-first-entity-only`
+    (+ `deletion-missing-room-summaries-equal`), `greater-version-refused-author-lacks-all-rows-right`
+    (+ `deletion-refused-local-version-by-other-author`), `two-deletion-records-of-one-row-one-day`
+    (+ `deletion-record-missing-after-quiescence`), and the daily-log findings of C09. -/
+theorem C11_quiescent_pull_complete (d : Defects) (hI : d.ingestIgnoresTombstones = false)
+    (hS : d.summaryFirstEntityOnly = false) (rights : Rights) (hA : AllRights rights) (f : Nat → Nat)
+    (dst src : Replica) (hR : d.syncDeletionRoomScoped = false ∨ (RoomFn f dst ∧ RoomFn f src))
+    (hK : d.deletionBatchKeyedById = false ∨ DayRecordsDistinct src)
+    (hzd : NoZombie dst) (hzs : NoZombie src) (hnd : IdsNodup dst) (hns : IdsNodup src)
+    (hpk : PkFun (fun x => x ∈ dst.ntombs ∨ x ∈ src.ntombs))
+    (hld : IsLogOf dst.sigs dst.log) (hls : IsLogOf src.sigs src.log) (hsig : SigsDetermine dst src) (room : Nat)
+    (hq : abs (pull d rights dst src room).dst = abs dst) :
+    ∀ t ∈ src.ntombs, t.room = room → (∃ u ∈ dst.ntombs, u.sig = t.sig) ∧ ∀ n ∈ dst.nodes, n.id ≠ t.id := by
+  intro t ht hr
+  have e := pull_refines_join hI hS hA hR hK hzd hzs hnd hns hpk hld hls hsig room
+  rw [hq] at e
+  have hin : t ∈ (inRoom src room).ntombs := List.mem_filter.mpr ⟨ht, by simp [hr]⟩
+  have hrec : (abs dst).recs t.sig = true := by
+    have := congrArg (fun a => a.recs t.sig) e
+    simp only [join] at this
+    rw [this]
+    have : (abs (inRoom src room)).recs t.sig = true := List.any_eq_true.mpr ⟨t, hin, by simp⟩
+    rw [this, Bool.or_true]
+  have hdead : (abs dst).dead t.id = true := by
+    have := congrArg (fun a => a.dead t.id) e
+    simp only [join] at this
+    rw [this]
+    have : (abs (inRoom src room)).dead t.id = true := List.any_eq_true.mpr ⟨t, hin, by simp⟩
+    rw [this, Bool.or_true]
+  constructor
+  · obtain ⟨u, hu, eu⟩ := List.any_eq_true.mp hrec
+    exact ⟨u, hu, by simpa using eu⟩
+  · intro n hn e2
+    obtain ⟨u, hu, eu⟩ := List.any_eq_true.mp hdead
+    have eu' : u.id = t.id := by simpa using eu
+    exact hzd u hu n hn (e2.trans eu'.symm)
+
+/-! #### the hypotheses are satisfiable: the schedules of the property on the model of the repaired code -/
+
+instance (tombs : List NTomb) (id room : Nat) : Decidable (Clear tombs id room) := by
+  unfold Clear; exact inferInstance
+
+instance (sn : List Node) (tombs : List NTomb) : (op : WOp) → Decidable (op.safe sn tombs)
+  | .new .. => by unfold WOp.safe; exact inferInstance
+  | .upd .. => by unfold WOp.safe; exact inferInstance
+  | .ref .. => by unfold WOp.safe; exact inferInstance
+  | .unref .. => by unfold WOp.safe; exact inferInstance
+  | .del .. => by unfold WOp.safe; exact inferInstance
+
+instance (w : World) : (op : Op) → Decidable (op.safe w)
+  | .write .. => by unfold Op.safe; exact inferInstance
+  | .clock .. | .compute .. | .pull .. | .begin .. | .commit .. | .settle .. => by unfold Op.safe; exact inferInstance
+
+instance (d : Defects) : (ops : List Op) → (w : World) → Decidable (runSafe d w ops)
+  | [], _ => by unfold runSafe; exact inferInstance
+  | op :: t, w => by
+    unfold runSafe
+    have := instDecidableRunSafe d t (w.exec d op)
+    exact inferInstance
+
+instance (w : World) : (op : Op) → Decidable (op.fresh w)
+  | .write _ (.new ..) => by unfold Op.fresh; exact inferInstance
+  | .write _ (.upd ..) | .write _ (.ref ..) | .write _ (.unref ..) | .write _ (.del ..) => by
+    unfold Op.fresh; exact inferInstance
+  | .clock .. | .compute .. | .pull .. | .begin .. | .commit .. | .settle .. => by unfold Op.fresh; exact inferInstance
+
+instance (d : Defects) : (ops : List Op) → (w : World) → Decidable (runFresh d w ops)
+  | [], _ => by unfold runFresh; exact inferInstance
+  | op :: t, w => by
+    unfold runFresh
+    have := instDecidableRunFresh d t (w.exec d op)
+    exact inferInstance
+
+instance (f : Nat → Nat) : (op : WOp) → Decidable (op.keepsRoom f)
+  | .new .. => by unfold WOp.keepsRoom; exact inferInstance
+  | .upd _ _ _ (some _) => by unfold WOp.keepsRoom; exact inferInstance
+  | .upd _ _ _ none | .ref .. | .unref .. | .del .. => by unfold WOp.keepsRoom; exact inferInstance
+
+instance (f : Nat → Nat) : (op : Op) → Decidable (op.keepsRoom f)
+  | .write .. => by unfold Op.keepsRoom; exact inferInstance
+  | .clock .. | .compute .. | .pull .. | .begin .. | .commit .. | .settle .. => by unfold Op.keepsRoom; exact inferInstance
+
 /-- non-vacuity: a reachable state in which a peer that never deleted anything stores a deletion record -/
 example :
     let w := World.run Defects.none (World.init [true, true, true])
@@ -79,12 +294,85 @@ def comeBackTrace : List Op :=
     `delete@A, B←A, B←C, A←B` the row is visible again on B and on A — the peer that deleted it — although both
     store its deletion record. With the deletion log consulted it stays deleted. -/
 theorem C11_breaks_ingestIgnoresTombstones :
-    let w := World.run Defects.asImplemented (World.init [true, true, true]) comeBackTrace
+    let w := World.run { Defects.asImplemented with ingestIgnoresTombstones := true } (World.init [true, true, true])
+      comeBackTrace
     1 ∈ (w.peer 0).deadIds ∧ 1 ∈ (w.peer 1).deadIds ∧
     (w.peer 0).nodes.map (·.id) = [1] ∧ (w.peer 1).nodes.map (·.id) = [1] ∧
     let w' := World.run { Defects.asImplemented with ingestIgnoresTombstones := false } (World.init [true, true, true])
       comeBackTrace
     (w'.peer 0).nodes = [] ∧ (w'.peer 1).nodes = [] := by
+  decide +kernel
+
+/-- non-vacuity of `C11_invariant_repaired`, `C11_invariant_rooms`, `C11_deleted_stays_deleted_*` on the model of the
+    repaired code: the schedule of the property text satisfies every guard, B (1) and A (0) store the deletion record
+    and no version of the row, C (2) — which never heard of the deletion — still stores it -/
+example :
+    let d := Defects.repaired18
+    let w0 := World.init [true, true, true]
+    let w := World.run d w0 comeBackTrace
+    runSafe d w0 comeBackTrace ∧ runFresh d w0 comeBackTrace ∧ (∀ op ∈ comeBackTrace, op.keepsRoom fun _ => 1) ∧
+    1 ∈ (w.peer 0).deadIds ∧ 1 ∈ (w.peer 1).deadIds ∧ (w.peer 0).nodes = [] ∧ (w.peer 1).nodes = [] ∧
+    (w.peer 2).nodes.length = 1 := by
+  decide +kernel
+
+/-- rows 1 and 2 refer to each other; row 2 is deleted on a later day than its last change; peer 1 applies the
+    deletion and then pulls from peer 2, which has not seen it and holds the row and both references -/
+def referencesTrace : List Op :=
+  [.clock 1000, .write 0 (.new 1 1 0 1 11), .write 0 (.new 2 1 0 2 12), .clock 2000, .write 0 (.ref 1 2 13),
+   .clock 2001, .write 0 (.ref 2 1 14), .compute 0, .pull 1 0 1, .pull 2 0 1,
+   .clock 86401000, .write 0 (.del 2 15), .compute 0,
+   .pull 1 0 1, .pull 1 2 1, .pull 0 2 1, .pull 0 1 1, .settle 1 6]
+
+/-- non-vacuity, references and a deletion on a later day: on the repaired model the guards hold, the deleted row is
+    stored nowhere after quiescence, and no reference has both ends stored; on the model of the code before the repair
+    the row is back everywhere with its references (the known findings `reference-of-deleted-row-differs` and
+    `deleted-reference-back-with-deleted-row` are consequences of #18) -/
+example :
+    let w0 := World.init [true, true, true]
+    let w := World.run Defects.repaired18 w0 referencesTrace
+    let v := World.run { Defects.asImplemented with ingestIgnoresTombstones := true } w0 referencesTrace
+    runSafe Defects.repaired18 w0 referencesTrace ∧ runFresh Defects.repaired18 w0 referencesTrace ∧
+    w.peers.map (fun r => r.nodes.map (·.id)) = [[1], [1], [1]] ∧
+    w.peers.map (fun r => r.deadIds) = [[2], [2], [2]] ∧
+    v.peers.map (fun r => r.nodes.map (·.id)) = [[1, 2], [1, 2], [1, 2]] ∧
+    (v.peer 0).edges.length = 1 ∧ (v.peer 1).edges.length = 2 := by
+  decide +kernel
+
+/-- the opposite arrival order: an unaware peer edits the row after its deletion; peer 1 receives the NEWER version
+    first and the deletion record afterwards, then is offered the newer version again -/
+def newerFirstTrace : List Op :=
+  [.clock 1000, .write 0 (.new 1 1 0 1 11), .compute 0, .pull 1 0 1, .pull 2 0 1,
+   .clock 2000, .write 0 (.del 1 12), .compute 0, .clock 3000, .write 2 (.upd 1 5 13 none), .compute 2,
+   .pull 1 2 1, .pull 1 0 1, .pull 1 2 1, .settle 1 6]
+
+/-- the deletion wins in both arrival orders on the repaired model: the row is stored nowhere, the record everywhere -/
+example :
+    let w := World.run Defects.repaired18 (World.init [true, true, true]) newerFirstTrace
+    runSafe Defects.repaired18 (World.init [true, true, true]) newerFirstTrace ∧
+    w.peers.map (fun r => r.nodes) = [[], [], []] ∧ w.peers.map (fun r => r.deadIds) = [[1], [1], [1]] := by
+  decide +kernel
+
+/-- a row that travels between rooms: created in room 1, moved to room 2 by peer 2, moved back to room 1 by peer 1,
+    deleted there by peer 0; peer 3 applies the deletion, then pulls room 2 from peer 2, which still holds the
+    version of room 2 -/
+def twoMovesTrace : List Op :=
+  [.clock 1000, .write 0 (.new 1 1 0 1 11), .compute 0, .pull 1 0 1, .pull 2 0 1, .pull 3 0 1,
+   .clock 1500, .write 2 (.upd 1 2 12 (some 2)), .compute 2, .pull 1 2 2,
+   .clock 3000, .write 1 (.upd 1 3 13 (some 1)), .compute 1, .pull 0 1 1,
+   .clock 4000, .write 0 (.del 1 14), .compute 0, .pull 3 0 1, .pull 3 2 2]
+
+/-- **C11_breaks_syncDeletionRoomScoped** (what remains open after the repair of #18). Deletion records are per
+    room (`DELETE … WHERE room_id = ? AND id = ?`, a security boundary: the deleter's right is judged in the room the
+    record names): for a row that has lived in two rooms, a peer that stores the deletion record of a LATER version in
+    room 1 still fetches an OLDER version of the row that another peer holds in room 2. The room-level invariant of
+    `C11_invariant_repaired` holds (every guard is satisfied), the id-level statement does not: rows that change room
+    are outside `C11_invariant_rooms`. -/
+theorem C11_breaks_syncDeletionRoomScoped :
+    let w0 := World.init [true, true, true, true]
+    let w := World.run Defects.repaired18 w0 twoMovesTrace
+    runSafe Defects.repaired18 w0 twoMovesTrace ∧
+    (w.peer 3).ntombs.map (fun t => (t.id, t.room, t.mdate)) = [(1, 1, 3000)] ∧
+    (w.peer 3).nodes.map (fun n => (n.id, n.room, n.mdate)) = [(1, 2, 1500)] := by
   decide +kernel
 
 end Discret.Sync
